@@ -448,6 +448,15 @@ def pattern_edits(qs, loc, g, out, max_module=0xFFFF):
     # whole-pattern edits through the public methods
     if any(qs["cells"]):
         out.append(Edit(f"{base}/cells", (lambda root: nav(root, loc).clear()), bytes(len(qs["cells"])), cls="pattern-clear"))
+    # the whole note block assigned as bytes (copied from another pattern, computed): a sparse image - most lines blank,
+    # also where the pattern held events so far
+    width = qs["tracks"] * 8
+    image = b"".join((bytes(width) if rng.random() < 0.6 else b"".join(g.cell() if rng.random() < 0.5 else bytes(8) for _ in range(qs["tracks"])))
+                     for _ in range(qs["lines"]))
+    if image != qs["cells"]:
+        kind = rng.randrange(3)
+        out.append(Edit(f"{base}/cells", (lambda root, im=image, k=kind: setattr(nav(root, loc), "raw_data", im if k == 0 else (bytearray(im) if k == 1 else memoryview(im)))),
+                        image, cls="pattern-image"))
     fill = g.cell()
     def bulk(root, c=fill):
         import struct
